@@ -8,7 +8,27 @@ COMMON_TRUSTED = [
     "no extraction: models are evaluated inside coqc on generated cases_*.v",
 ]
 
+WORLD_RULE = ("sessions of 2-3 real go-git repositories sharing a bare remote: exhaustive fork shapes (common prefix 0..2, local suffix 0..3, remote suffix 0..3, "
+              "three exchange orders; quick runs a third of them chosen by the seed) plus random sessions of 5..25 (thorough 40) actions over {new bug, edit (1-3 packs of 1-3 ops, "
+              "6 operation kinds, 1-3 authors), push, pull, remove}, 3 in 4 ending with a synchronisation round; non-trivial = at least one merge reported updated or a merge commit; "
+              "distinct = distinct action list")
+WORLD_TRUSTED = ["modelled, not verified: go-git fetch/push (modelled as fast-forward-only ref copies, all-or-nothing push), sha-256 (ids compared through order-preserving ranks)",
+                 "the harness reads the commit graph back through repository.RepoData using the documented tree-entry format, independently of dag.read"]
+
 PROPS = {
+    "C01": dict(
+        kmod="K_C01", driver="C01", shard=40, explain=True, case_timeout="300s",
+        corr="Sync.sstep (over World.step) = bug.{Create,Read,Commit,Push,Fetch,MergeAll,Remove} on go-git repositories",
+        rule=WORLD_RULE, trusted=COMMON_TRUSTED + WORLD_TRUSTED,
+        assumptions=["fewer than 10^6 clock increments in a session (C01_reachable_valid's premise; see finding F-clock)",
+                     "pack ids determine pack content (sha-256)"],
+    ),
+    "C02": dict(
+        kmod="K_C02", driver="C02", shard=40, explain=True, case_timeout="300s",
+        corr="Sync.sstep (over World.step) = bug.{Create,Read,Commit,Push,Fetch,MergeAll,Remove} on go-git repositories",
+        rule=WORLD_RULE, trusted=COMMON_TRUSTED + WORLD_TRUSTED,
+        assumptions=["identity merges are covered by the C09 check (same property, identity side)"],
+    ),
     "C20": dict(
         kmod="K_C20", driver="C20", shard=1500,
         corr="Page.paginate = connections.{Label,Comment,Operation,TimelineItem,Identity,LazyBug,LazyIdentity}Con",
